@@ -561,6 +561,11 @@ def gen_wrap_scenarios(ctx, n_random):
                         calls = [(0, 64, c) for c in chunks] + [(2, 64, b"")] * 4
                         sc.append({"line": line(be, "d", a, g, t, calls), "family": "eof", "backend": be, "dir": "d", "class": cls,
                                    "content": cont, "nchunks": len(chunks)})
+                        if k == 2 and (a, g, t) == (70, 0, 70):
+                            # the same with total_in counters beyond 2^32 (`wrap big`: the fake libraries add 2^32 - 1 once a byte has been
+                            # consumed, so libbz2's total_in_lo32 is 0 and total_in_hi32 is 1): the end-of-input rule must look at both
+                            sc.append({"line": line(be, "d", a, g, t, calls).replace("wrap new ", "wrap big ", 1), "family": "eof", "backend": be, "dir": "d",
+                                       "class": cls, "content": cont, "nchunks": len(chunks)})
     for _ in range(n_random):
         be = rng.choice(CODECS); d = rng.choice("cd")
         a, g, t = (rng.choice([0, 0, 1, 2, 5, 70]) for _ in range(3))
@@ -1282,6 +1287,15 @@ def gzip_with_header_fields(data, level=6):
     return hdr + body + (zlib.crc32(data) & 0xFFFFFFFF).to_bytes(4, "little") + (len(data) & 0xFFFFFFFF).to_bytes(4, "little")
 
 
+def xz_with_dict_size(stream, bits):
+    """the .xz stream (one block, LZMA2 only, as `xz -T1` writes it) with the dictionary size its block header announces changed to
+    the one encoded by `bits` (29 = 96 MiB): the decoder allocates what is announced, so xz.c's memory limit decides"""
+    need(stream[:6] == b"\xfd7zXZ\0" and stream[13] == 0 and stream[14] == 0x21 and stream[15] == 1, "unexpected .xz block header layout")
+    size = (stream[12] + 1) * 4
+    hdr = bytearray(stream[12:12 + size - 4]); hdr[4] = bits
+    return stream[:12] + bytes(hdr) + (zlib.crc32(bytes(hdr)) & 0xFFFFFFFF).to_bytes(4, "little") + stream[12 + size:]
+
+
 def cli_variant(cmd, data):
     r = subprocess.run(cmd, input=data, capture_output=True, timeout=600)
     need(r.returncode == 0 and len(r.stdout) > 0, "%s failed (exit %s): %s" % (" ".join(cmd), r.returncode, r.stderr[-200:]))
@@ -1392,6 +1406,8 @@ def tool_part(ctx, bufsz):
                     for opt in (["--check=none"], ["--check=crc32"], ["--check=crc64"], ["--check=sha256"], ["--block-size=4096"],
                                 ["-T2", "--block-size=8192"], ["--x86", "--lzma2=preset=1"], ["--lzma2=dict=64KiB,lc=4,lp=0,pb=0"]):
                         add("container", codec, tag, "xz " + " ".join(opt), cli_variant(["xz", "-c"] + (["-T1"] if "-T2" not in opt else []) + opt, tar), "reference")
+                    add("container", codec, tag, "xz block header announcing a 96 MiB dictionary (the largest step below xz.c's 128 MiB memory limit)",
+                        xz_with_dict_size(cli_variant(["xz", "-c", "-T1", "-1"], tar), 29), "reference")
                 if codec == "gzip":
                     add("container", codec, tag, "gzip header with FEXTRA, FNAME, FCOMMENT, FHCRC", gzip_with_header_fields(tar), "reference")
                     add("container", codec, tag, "gzip --rsyncable -1", cli_variant(["gzip", "-n", "-c", "--rsyncable", "-1"], tar), "reference")
